@@ -30,7 +30,7 @@ COMPONENTS = {"real": ["pel.peltool.peltool.main() in-process"],
               "stub": ["directory enumeration order (SimFS)", "stdout capture"]}
 ASSUMPTIONS = ["which of several files whose names contain the id --delete removes is not constrained (readdir dependent)",
                "--json without selection: which PELs get an output is not judged (C07); only names/locations of created files are"]
-PROBES = ["non_regular_entry", "symlink_in_pel_dir", "delete_unusual_id", "json_second_directory", "json_clean", "dir_name_contains_id", "json_fault_fired:error", "json_fault_fired:crash_after", "delete_hit", "delete_miss", "delete_all", "json_same_dir", "json_out_dir", "nested_same_id", "id_inner_substring",
+PROBES = ["json_missing_out_dir", "non_regular_entry", "symlink_in_pel_dir", "delete_unusual_id", "json_second_directory", "json_clean", "dir_name_contains_id", "json_fault_fired:error", "json_fault_fired:crash_after", "delete_hit", "delete_miss", "delete_all", "json_same_dir", "json_out_dir", "nested_same_id", "id_inner_substring",
           "delete_multi_match"]
 
 READ_MODES = ["-l", "-a", "-n", "-i", "--bmc-id", "--plid", "--src", "--src-exclude", "-lx", "-ax", "-f", "-fx"]
@@ -89,7 +89,7 @@ def gen_plan(rng, tier, run):
     tree.append({"path": "X/exclude.txt", "raw_hex": "\n".join(rng.sample(common.REFCODE_POOL, 3)).encode().hex()})
     ops = []
     for _ in range(rng.randint(3, 10)):
-        m = rng.choice(READ_MODES + ["-d", "-d", "-d", "-D", "-j", "-j", "-jo", "-jo", "-jE", "-jEc", "-jc"])
+        m = rng.choice(READ_MODES + ["-d", "-d", "-d", "-D", "-j", "-j", "-jo", "-jo", "-jE", "-jEc", "-jc", "-jon"])
         op = {"mode": m, "opts": common.gen_selection(rng),
               "order": {"policy": rng.choice(["perm", "perm", "asc", "desc"]), "key": rng.randrange(1 << 30)}}
         if rng.random() < 0.2:
@@ -115,6 +115,8 @@ def gen_plan(rng, tier, run):
         elif m in ("-f", "-fx"):
             cands = [t["path"] for t in tree if "recipe" in t or "raw_hex" in t]
             op["arg"] = rng.choice(cands) if cands else "D/none"
+        if m == "-jon":
+            op["newdir"] = rng.choice(["NEW", "OUT/new", "NEW/deeper", "D/json"])
         if m in ("-j", "-jo") and rng.random() < 0.3:
             op["ext"] = ".pel"
         if m in ("-j", "-jo", "-jc") and rng.random() < 0.35:
@@ -169,6 +171,9 @@ def _argv_of(op):
         a += ["-j"]
     elif m == "-jo":
         a += ["-j", "-o", "@/OUT"]
+    elif m == "-jon":
+        # an output directory that does not exist: nothing may be created (not even the directory)
+        a += ["-j", "-o", "@/" + op.get("newdir", "NEW")]
     elif m == "-jc":
         a += ["-j", "-c", "-o", "@/OUT"]
     elif m == "-jE":
@@ -281,7 +286,7 @@ def execute(plan):
                 # an uncaught exception is C05/C09 territory; only the frame
                 # condition is judged here
                 bump("uncaught_exception")
-            if changed and m in ("-j", "-jo", "-jc", "-jE", "-jEc"):
+            if changed and m in ("-j", "-jo", "-jc", "-jE", "-jEc", "-jon"):
                 # re-running --json may rewrite its own earlier outputs
                 outdir_ = "D" if m == "-j" else "OUT"
                 changed = [p for p in changed if not (p.rpartition("/")[0] == outdir_ and p in json_outputs)]
@@ -337,7 +342,7 @@ def execute(plan):
                     vio.append(V("delete-all-wrong-set", "--delete-all removed %s, top-level regular files were %s (links %s)" % (removed, top_files, top_links)))
                 bump("delete_all")
                 trace.append("-D:%d" % min(3, len(removed)))
-            elif m in ("-j", "-jo", "-jc", "-jE", "-jEc"):
+            elif m in ("-j", "-jo", "-jc", "-jE", "-jEc", "-jon"):
                 outdir = "D" if m == "-j" else "OUT"
                 indir = "E" if m in ("-jE", "-jEc") else "D"
                 top_inputs = {p[2:] for p in before if p.startswith(indir + "/") and "/" not in p[2:] and before[p][0] in ("f", "l")}
@@ -373,7 +378,7 @@ def execute(plan):
                         json_outputs.add(p)
                     if not ok:
                         vio.append(V("json-bad-output-name", "--json created %s (output dir %s, inputs %s); %s" % (p, outdir, sorted(top_inputs), ctx)))
-                bump("json_same_dir" if m == "-j" else "json_out_dir")
+                bump("json_same_dir" if m == "-j" else ("json_missing_out_dir" if m == "-jon" else "json_out_dir"))
                 if indir == "E":
                     bump("json_second_directory")
                 if m in ("-jc", "-jEc"):
